@@ -22,14 +22,23 @@ from xdsl.analysis.dataflow import DataFlowSolver, ProgramPoint
 from xdsl.analysis.dead_code_analysis import DeadCodeAnalysis, Executable
 from xdsl.analysis.liveness_analysis import Liveness, LivenessAnalysis
 from xdsl.context import Context
-from xdsl.dialects.builtin import ModuleOp, i32
-from xdsl.dialects.test import TestOp, TestPureOp, TestReadOp, TestTermOp, TestWriteOp
+from xdsl.dialects import func
+from xdsl.dialects.builtin import ModuleOp, UnregisteredOp, i32
+from xdsl.dialects.test import (
+    TestAllocatableOp,
+    TestOp,
+    TestPureOp,
+    TestReadOp,
+    TestRegisterType,
+    TestTermOp,
+    TestWriteOp,
+)
 from xdsl.ir import Block, Operation, Region, SSAValue
 
 from simverif.kernel import Chooser, Engine, HarnessError, RunResult, Stream, Violation, register
 
 from xdsl.irdl import IRDLOperation, irdl_op_definition, traits_def, var_operand_def, var_result_def  # noqa: E402
-from xdsl.traits import IsTerminator, Pure, SymbolOpInterface  # noqa: E402
+from xdsl.traits import IsTerminator, MemoryAllocEffect, MemoryFreeEffect, Pure, SymbolOpInterface  # noqa: E402
 
 
 @irdl_op_definition
@@ -52,6 +61,31 @@ class SimPureSymbolOp(IRDLOperation):
     traits = traits_def(SymbolOpInterface(), Pure())
 
 
+@irdl_op_definition
+class SimAllocOp(IRDLOperation):
+    """Harness op: allocates something that is not one of its own results (observable)."""
+
+    name = "simverif.alloc"
+    res = var_result_def()
+    ops = var_operand_def()
+    traits = traits_def(MemoryAllocEffect())
+
+
+@irdl_op_definition
+class SimFreeOp(IRDLOperation):
+    """Harness op: frees (observable)."""
+
+    name = "simverif.free"
+    res = var_result_def()
+    ops = var_operand_def()
+    traits = traits_def(MemoryFreeEffect())
+
+
+_UNREG = UnregisteredOp.with_name("simverif_unregistered.op")
+_REG_FREE = TestRegisterType.unallocated()
+_REG_A0 = TestRegisterType.from_name("a0")
+_REG_A1 = TestRegisterType.from_name("a1")
+
 # removability re-stated from the trait definitions (independent of
 # xdsl.transforms.dead_code_elimination.would_be_trivially_dead)
 OPS = (
@@ -62,7 +96,13 @@ OPS = (
     (TestTermOp, False, "terminator"),
     (SimPureTermOp, False, "pure-terminator"),
     (SimPureSymbolOp, False, "pure-symbol"),
+    (SimAllocOp, False, "alloc"),
+    (SimFreeOp, False, "free"),
+    (_UNREG, False, "unregistered"),
+    # effects decided per *instance*: writes a register iff a result register is allocated
+    (TestAllocatableOp, None, "register-allocatable"),
 )
+OP_WEIGHTS = (12, 4, 4, 4, 2, 1, 1, 1, 1, 1, 5)
 POLICIES = ("fifo", "lifo", "random", "starve", "newest-of-oldest")
 LOADS = ("liveness+hand-marked", "deadcode,liveness", "liveness,deadcode", "liveness,liveness+hand-marked")
 
@@ -182,62 +222,120 @@ class SolverEngine(Engine):
         st = res.stats
         tr: list[str] | None = [] if trace else None
 
-        # ---- generated program: one or two executable blocks, branch-free ----
-        n_ops = 1 + cfg.choice(25)
-        n_blocks = 1 + (1 if cfg.flag(1, 5) else 0)
-        n_args = cfg.weighted((4, 2, 1))
-        blocks = [Block(arg_types=[i32] * (n_args if b == 0 else 0)) for b in range(n_blocks)]
-        values: list[SSAValue] = list(blocks[0].args)
-        vname: dict[int, str] = {id(a): f"arg{i}" for i, a in enumerate(blocks[0].args)}
+        load = cfg.choice(len(LOADS))
+        with_dca = load in (1, 2)
+        # one solver analyses 1 root (usual) or 2-3 roots one after the other (solver reuse)
+        n_roots = 1 + ((1 + cfg.choice(2)) if cfg.flag(1, 6) else 0)
+
+        values: list[SSAValue] = []
+        vname: dict[int, str] = {}
         ops: list[Operation] = []
         removable: dict[int, bool] = {}
         opnum: dict[int, int] = {}
-        chain_bias = cfg.choice(3)
-        for i in range(n_ops):
-            cls, rem, kind = OPS[cfg.weighted((12, 4, 4, 4, 2, 1, 1))]
-            k = min(len(values), cfg.weighted((1, 4, 3, 1)))
-            operands = []
-            for _ in range(k):
-                if chain_bias == 0 and values:
-                    operands.append(values[len(values) - 1 - cfg.choice(min(3, len(values)))])
+        all_blocks: list[Block] = []
+        exec_status: dict[int, int] = {}  # id(block) -> 1 executable from the start, 2 made executable late, 0 never
+        roots: list[dict[str, Any]] = []
+        for ri in range(n_roots):
+            n_ops = 1 + cfg.choice(25 if n_roots == 1 else 12)
+            rkind = cfg.weighted((3, 2, 1))  # builtin.module / public func.func / private func.func
+            n_args = cfg.weighted((4, 2, 1))
+            entry = Block(arg_types=[i32] * n_args)
+            blocks = [entry]
+            exec_status[id(entry)] = 1
+            extra = nested = None
+            if cfg.flag(1, 5):
+                extra = Block()
+                blocks.append(extra)
+                exec_status[id(extra)] = cfg.weighted((1, 3, 1))
+            if not with_dca and cfg.flag(1, 6):
+                # body of a nested builtin.module (an op with a region but no operands)
+                nested = Block()
+                blocks.append(nested)
+                exec_status[id(nested)] = cfg.weighted((1, 3, 1))
+            rvals: list[SSAValue] = list(entry.args)
+            for i, a in enumerate(entry.args):
+                vname[id(a)] = f"r{ri}.arg{i}" if n_roots > 1 else f"arg{i}"
+            chain_bias = cfg.choice(3)
+            pfx = f"r{ri}." if n_roots > 1 else ""
+            for _ in range(n_ops):
+                cls, rem, kind = OPS[cfg.weighted(OP_WEIGHTS)]
+                k = min(len(rvals), cfg.weighted((1, 4, 3, 1)))
+                operands = []
+                for _k in range(k):
+                    if chain_bias == 0 and rvals:
+                        operands.append(rvals[len(rvals) - 1 - cfg.choice(min(3, len(rvals)))])
+                    else:
+                        operands.append(rvals[cfg.choice(len(rvals))])
+                if k and cfg.flag(1, 6):
+                    operands.append(operands[0])  # same value twice in one op
+                nres = 0 if kind == "terminator" else cfg.weighted((1, 5, 2))
+                if kind == "register-allocatable":
+                    rtypes = [(_REG_FREE, _REG_FREE, _REG_A0, _REG_A1)[cfg.weighted((3, 2, 2, 1))] for _r in range(nres)]
+                    op: Operation = TestAllocatableOp(operands, [], rtypes, [])
+                    rem = not any(t.is_allocated for t in rtypes)
+                    kind = f"register-allocatable[{','.join('alloc' if t.is_allocated else 'free' for t in rtypes)}]"
+                    st["reach.allocatable_removable" if rem else "reach.allocatable_with_allocated_result"] += 1
                 else:
-                    operands.append(values[cfg.choice(len(values))])
-            if k and cfg.flag(1, 6):
-                operands.append(operands[0])  # same value twice in one op
-            nres = 0 if kind == "terminator" else cfg.weighted((1, 5, 2))  # pure-terminator keeps results: they may be seeded live
-            op = cls.create(operands=operands, result_types=[i32] * nres)
-            b = blocks[cfg.choice(n_blocks)]
-            b.add_op(op)
-            ops.append(op)
-            removable[id(op)] = rem
-            opnum[id(op)] = i + 1
-            for j, r in enumerate(op.results):
-                vname[id(r)] = f"o{i}.{j}"
-                values.append(r)
-            if tr is not None:
-                tr.append(f"o{i} = {kind}({','.join(vname[id(v)] for v in operands)}) -> {nres} results, block {blocks.index(b)}")
-        module = ModuleOp(Region(blocks))
-        opnum[id(module)] = 0
-
-        # ---- seeds: preset or delivered late --------------------------------
-        seeds: list[SSAValue] = []
-        late: list[SSAValue] = []
-        for v in values:
-            if cfg.flag(1, 7):
-                if cfg.flag(1, 2):
-                    late.append(v)
+                    op = cls.create(operands=operands, result_types=[i32] * nres)
+                b = blocks[cfg.choice(len(blocks))]
+                b.add_op(op)
+                n = len(ops)
+                ops.append(op)
+                removable[id(op)] = bool(rem)
+                opnum[id(op)] = n + 1
+                for j, r in enumerate(op.results):
+                    vname[id(r)] = f"{pfx}o{n}.{j}"
+                    rvals.append(r)
+                if tr is not None:
+                    tr.append(f"{pfx}o{n} = {kind}({','.join(vname[id(v)] for v in operands)}) -> {nres} results, block {blocks.index(b)}")
+            if nested is not None:
+                nm = ModuleOp(Region([nested]))
+                host = blocks[cfg.choice(2 if extra is not None else 1)]
+                pos = cfg.choice(len(host.ops) + 1)
+                if pos < len(host.ops):
+                    host.insert_op_before(nm, list(host.ops)[pos])
                 else:
-                    seeds.append(v)
+                    host.add_op(nm)
+                opnum[id(nm)] = 500 + ri
+                st["reach.nested_module"] += 1
+            region_blocks = [entry] + ([extra] if extra is not None else [])
+            if rkind == 0:
+                root: Operation = ModuleOp(Region(region_blocks))
+            else:
+                nret = min(len(rvals), cfg.weighted((1, 3, 2)))
+                rets = [rvals[cfg.choice(len(rvals))] for _r in range(nret)]
+                ret = func.ReturnOp(*rets)
+                entry.add_op(ret)
+                n = len(ops)
+                ops.append(ret)
+                removable[id(ret)] = False
+                opnum[id(ret)] = n + 1
+                root = func.FuncOp(f"f{ri}", ([i32] * n_args, [v.type for v in rets]), Region(region_blocks), "public" if rkind == 1 else "private")
+                st["reach.func_root_" + ("public" if rkind == 1 else "private")] += 1
+                if tr is not None:
+                    tr.append(f"{pfx}o{n} = func.return({','.join(vname[id(v)] for v in rets)}) in {'public' if rkind == 1 else 'private'} func.func, block 0")
+            opnum[id(root)] = 400 + ri
+            all_blocks.extend(blocks)
+            # seeds: preset before solving or delivered late through set_to_exit_state
+            seeds: list[SSAValue] = []
+            late: list[SSAValue] = []
+            for v in rvals:
+                if cfg.flag(1, 7):
+                    (late if cfg.flag(1, 2) else seeds).append(v)
+            values.extend(rvals)
+            roots.append({"root": root, "blocks": blocks, "seeds": seeds, "late": late})
 
-        # ---- reference: least fixpoint --------------------------------------
-        live: set[int] = {id(v) for v in seeds} | {id(v) for v in late}
+        # ---- reference: least fixpoint over the ops of executable blocks ------
+        live: set[int] = set()
+        for r in roots:
+            live |= {id(v) for v in r["seeds"]} | {id(v) for v in r["late"]}
         changed = True
         rounds = 0
         while changed:
             changed = False
             rounds += 1
             for op in ops:
-                if not op._operands:
+                if not op._operands or op.parent is None or not exec_status[id(op.parent)]:
                     continue
                 if not removable[id(op)] or any(id(r) in live for r in op.results):
                     for v in op._operands:
@@ -246,7 +344,6 @@ class SolverEngine(Engine):
                             changed = True
 
         # ---- the real solver under the seeded scheduler ---------------------
-        load = cfg.choice(len(LOADS))
         policy = POLICIES[cfg.choice(len(POLICIES))]
         dup_rate = (0, 8, 3)[cfg.choice(3)]
         solver = DataFlowSolver(Context())
@@ -262,14 +359,7 @@ class SolverEngine(Engine):
             analyses = [solver.load(LivenessAnalysis), solver.load(LivenessAnalysis)]
         liveness = next(a for a in analyses if isinstance(a, LivenessAnalysis))
         anum = {id(a): i for i, a in enumerate(analyses)}
-        # all blocks of the program are executable: by hand (as the unit tests do) or,
-        # for the entry block, through DeadCodeAnalysis; a second block is always
-        # marked by hand
-        for bi, b in enumerate(blocks):
-            if hand_mark or bi > 0:
-                solver.get_or_create_state(ProgramPoint.at_start_of_block(b), Executable).live = True
-        for v in seeds:
-            solver.get_or_create_state(v, Liveness).is_live = True
+        block_index = {id(b): i for i, b in enumerate(all_blocks)}
 
         def key(item: Any) -> tuple[int, int]:
             point, analysis = item
@@ -277,40 +367,44 @@ class SolverEngine(Engine):
             if isinstance(ent, Operation):
                 n = opnum.get(id(ent), -1)
             else:
-                n = 1000 + blocks.index(ent) if ent in blocks else 2000
+                n = 1000 + block_index.get(id(ent), 999)
             return (n, anum.get(id(analysis), 9))
 
-        pending_late = list(late)
+        pending_late: list[SSAValue] = []
+        pending_blocks: list[Block] = []
 
         def on_pop(d: SchedDeque) -> None:
-            # late boundary events: "returned from a public function" discovered late
-            while pending_late and (not d.pending or sch.flag(1, 4)):
-                v = pending_late.pop(0)
-                liveness.set_to_exit_state(solver.get_or_create_state(v, Liveness))
-                st["fault.late_boundary_event"] += 1
-                if tr is not None:
-                    tr.append(f"  late: set_to_exit_state({vname[id(v)]})")
+            # late events: a boundary value ("returned from a public function") or a block
+            # becoming executable is discovered while the solver is already running
+            while (pending_late or pending_blocks) and (not d.pending or sch.flag(1, 4)):
+                if pending_blocks and (not pending_late or sch.flag(1, 2)):
+                    b = pending_blocks.pop(0)
+                    ex = solver.get_or_create_state(ProgramPoint.at_start_of_block(b), Executable)
+                    solver.propagate_if_changed(ex, ex.set_to_live())
+                    st["fault.late_block_executable_event"] += 1
+                    if tr is not None:
+                        tr.append(f"  late: block {block_index[id(b)]} becomes executable")
+                else:
+                    v = pending_late.pop(0)
+                    liveness.set_to_exit_state(solver.get_or_create_state(v, Liveness))
+                    st["fault.late_boundary_event"] += 1
+                    if tr is not None:
+                        tr.append(f"  late: set_to_exit_state({vname[id(v)]})")
                 if d.pending:
                     break
-            d.more_events = bool(pending_late)
+            d.more_events = bool(pending_late or pending_blocks)
             # duplicate delivery of an item the solver has already processed
-            if dup_rate and d.seen and d.dups < 3 * n_ops + 10 and sch.flag(1, dup_rate):
+            if dup_rate and d.seen and d.dups < 3 * len(ops) + 10 and sch.flag(1, dup_rate):
                 it = d.seen[sch.choice(len(d.seen))]
                 d.append(it)
                 d.dups += 1
                 st["fault.duplicate_delivery"] += 1
 
         dq = SchedDeque(sch, policy, key, on_pop)
-        dq.filler = (ProgramPoint.before(module), liveness)
-        dq.more_events = bool(pending_late)
-        dq.starved = 1 + cfg.choice(n_ops)
+        dq.starved = 1 + cfg.choice(len(ops))
         solver._worklist = dq  # type: ignore[assignment]  # the seam (no hook needed)
-        if tr is not None:
-            tr.append(
-                f"load={LOADS[load]} policy={policy} dup_rate=1/{dup_rate} seeds={[vname[id(v)] for v in seeds]} "
-                f"late={[vname[id(v)] for v in late]}"
-            )
-        bound = (len(ops) + len(values) + len(late) + 3 * n_ops + 12) * (len(values) + 3) * 2
+        n_late = sum(len(r["late"]) for r in roots)
+        bound = (len(ops) + len(values) + n_late + 3 * len(ops) + 12 + 4 * len(all_blocks)) * (len(values) + 3) * 2
         viol: Violation | None = None
         orig_popleft = dq.popleft
 
@@ -320,16 +414,40 @@ class SolverEngine(Engine):
             return orig_popleft()
 
         dq.popleft = guarded_popleft  # type: ignore[method-assign]
-        try:
-            solver.initialize_and_run(module)
-        except _Spin:
-            viol = Violation("bounded-progress", "DataFlowSolver.initialize_and_run", dq.pops, f"more than {bound} pops for {len(ops)} ops / {len(values)} values: the solver does not converge", "bounded-progress:solver")
-        except NotImplementedError as e:
-            raise HarnessError(f"generated unsupported IR: {e}")
-        except Exception as e:  # noqa: BLE001
-            viol = Violation("solver-raised", "DataFlowSolver.initialize_and_run", dq.pops, f"{type(e).__name__} while solving supported IR", f"solver-raised:{type(e).__name__}")
-        if viol is None and (pending_late or len(dq.pending)):
-            raise HarnessError("scheduler left events undelivered")
+        if tr is not None:
+            tr.append(f"load={LOADS[load]} policy={policy} dup_rate=1/{dup_rate} roots={n_roots}")
+        for ri, r in enumerate(roots):
+            root = r["root"]
+            for bi, b in enumerate(r["blocks"]):
+                stt = exec_status[id(b)]
+                if (bi == 0 and hand_mark) or (bi > 0 and stt == 1):
+                    solver.get_or_create_state(ProgramPoint.at_start_of_block(b), Executable).live = True
+                elif bi > 0 and stt == 2:
+                    pending_blocks.append(b)
+            for v in r["seeds"]:
+                solver.get_or_create_state(v, Liveness).is_live = True
+            pending_late.extend(r["late"])
+            dq.filler = (ProgramPoint.before(root), liveness)
+            dq.more_events = bool(pending_late or pending_blocks)
+            if tr is not None:
+                tr.append(
+                    f"root {ri} ({root.name}): seeds={[vname[id(v)] for v in r['seeds']]} late={[vname[id(v)] for v in r['late']]} "
+                    f"blocks={[('entry' if i == 0 else {0: 'never-executable', 1: 'executable', 2: 'executable-late'}[exec_status[id(b)]]) for i, b in enumerate(r['blocks'])]}"
+                )
+            try:
+                solver.initialize_and_run(root)
+            except _Spin:
+                viol = Violation("bounded-progress", "DataFlowSolver.initialize_and_run", dq.pops, f"more than {bound} pops for {len(ops)} ops / {len(values)} values: the solver does not converge", "bounded-progress:solver")
+            except NotImplementedError as e:
+                raise HarnessError(f"generated unsupported IR: {e}")
+            except Exception as e:  # noqa: BLE001
+                viol = Violation("solver-raised", "DataFlowSolver.initialize_and_run", dq.pops, f"{type(e).__name__} while solving supported IR", f"solver-raised:{type(e).__name__}")
+            if viol is not None:
+                break
+            if pending_late or pending_blocks or len(dq.pending):
+                raise HarnessError("scheduler left events undelivered")
+            if ri > 0:
+                st["reach.solver_reused_for_another_root"] += 1
         if viol is None:
             for v in values:
                 s = solver.lookup_state(v, Liveness)
@@ -341,7 +459,7 @@ class SolverEngine(Engine):
                         "LivenessAnalysis",
                         dq.pops,
                         f"value {vname[id(v)]}: solver says {'live' if got else 'dead'}, reference fixpoint says {'live' if exp else 'dead'} "
-                        f"(policy {policy}, load order {LOADS[load]})",
+                        f"(policy {policy}, load order {LOADS[load]}, {n_roots} root(s))",
                         "liveness-vs-reference:" + ("missed-live" if exp else "spurious-live"),
                     )
                     break
@@ -356,11 +474,13 @@ class SolverEngine(Engine):
         st["pops"] += dq.pops
         st["pops_gt_ops" if dq.pops > len(ops) else "pops_le_ops"] += 1
         st["reach.fixpoint_rounds_ge3" if rounds >= 3 else "reach.fixpoint_rounds_lt3"] += 1
-        if n_blocks > 1:
-            st["reach.two_blocks"] += 1
+        if any(len(r["blocks"]) > 1 for r in roots):
+            st["reach.more_than_one_block"] += 1
+        if any(s == 0 for s in exec_status.values()):
+            st["reach.non_executable_block"] += 1
         if live and len(live) < len(values):
             st["reach.mixed_live_and_dead"] += 1
-        res.nontrivial = dq.pops > len(ops) or bool(late) or dq.dups > 0
+        res.nontrivial = dq.pops > len(ops) or n_late > 0 or dq.dups > 0
         res.fingerprint = zlib.crc32(repr((cfg.steps, sch.steps)).encode())
         res.schedule_fp = zlib.crc32(repr(dq.order).encode()) ^ (len(dq.order) << 20)
         res.trace = tr
@@ -399,6 +519,7 @@ class SolverEngine(Engine):
         return {
             "faults_injected": {
                 "late_boundary_event": stats.get("fault.late_boundary_event", 0),
+                "late_block_executable_event": stats.get("fault.late_block_executable_event", 0),
                 "duplicate_delivery": stats.get("fault.duplicate_delivery", 0),
                 "pop_order_perturbation_runs": sum(v for k, v in stats.items() if k.startswith("policy.") and k != "policy.fifo"),
             },
